@@ -1,10 +1,13 @@
 //! C08 correspondence driver: runs the real crux_core code under controlled interleavings.
-//! usage: conc_run <p1|p2|p3|all> <quick|thorough> <seed> [corpus-file]
+//! usage: conc_run <p1|p2|p3|all|list> <quick|thorough> <seed> [corpus-file] [scenario|corpus]
+//!        conc_run replay <file of {proto,scen,sched} lines>
 //! One JSON object per run on stdout; lines starting with '#' are summaries.
 #[path = "../conc/ctl.rs"]
 mod ctl;
 #[path = "../conc/p2.rs"]
 mod p2;
+#[path = "../conc/coreapp.rs"]
+mod coreapp;
 
 use vh::rng::Rng;
 
@@ -35,30 +38,32 @@ fn p2_scenarios(thorough: bool) -> Vec<p2::Scenario> {
     v
 }
 
-fn run_p2(thorough: bool, seed: u64, corpus: &[String]) {
+fn run_p2(thorough: bool, seed: u64, corpus: &[String], only: Option<&str>) {
     let scs = p2_scenarios(true);
     // corpus first: "p2 <scenario> <tid>:<point|point|..>,..."
     for line in corpus {
+        if only.is_some() && only != Some("corpus") {
+            break;
+        }
         let parts: Vec<&str> = line.split_whitespace().collect();
         if parts.len() != 3 || parts[0] != "p2" {
             continue;
         }
         let Some(sc) = scs.iter().find(|s| s.name == parts[1]) else { continue };
-        let dirs: Vec<(usize, Vec<&'static str>)> = parts[2]
-            .split(',')
-            .map(|d| {
-                let (t, names) = d.split_once(':').unwrap();
-                let names: Vec<&'static str> = names.split('|').map(|n| &*Box::leak(n.to_string().into_boxed_str())).collect();
-                (t.parse().unwrap(), names)
-            })
-            .collect();
+        let dirs = parse_dirs(parts[2]);
         let (inst, threads) = p2::make(sc);
         let out = ctl::run_schedule(threads, p2::PARK, &[], ctl::Policy::Directed(&dirs), 400);
         let obs = p2::finish(inst);
         println!("{}", p2::case_json(sc, &out, &obs, "corpus"));
     }
-    let max_runs = if thorough { 30000 } else { 800 };
+    if only == Some("corpus") {
+        return;
+    }
+    let max_runs = if thorough { 30000 } else { 3500 };
     for sc in p2_scenarios(thorough) {
+        if only.is_some() && only != Some(sc.name.as_str()) {
+            continue;
+        }
         let mut n = 0usize;
         let mut infeasible = 0usize;
         let (runs, exhausted) = ctl::explore_all(
@@ -66,6 +71,7 @@ fn run_p2(thorough: bool, seed: u64, corpus: &[String]) {
             p2::PARK,
             max_runs,
             400,
+            if thorough { usize::MAX } else { 3 },
             |inst, out| {
                 let obs = p2::finish(inst);
                 if !out.feasible {
@@ -75,12 +81,12 @@ fn run_p2(thorough: bool, seed: u64, corpus: &[String]) {
                 println!("{}", p2::case_json(&sc, &out, &obs, "enum"));
             },
         );
-        println!("# p2 scenario={} runs={} exhaustive={} infeasible={}", sc.name, runs, exhausted, infeasible);
+        println!("# p2 scenario={} runs={} exhaustive={} preemption_bound={} infeasible={}", sc.name, runs, exhausted, if thorough { "none" } else { "3" }, infeasible);
     }
     if thorough {
         let mut rng = Rng::new(seed);
-        let scs = p2_scenarios(true);
-        for k in 0..4000 {
+        let scs: Vec<_> = p2_scenarios(true).into_iter().filter(|s| only.is_none() || only == Some(s.name.as_str())).collect();
+        for k in 0..(400 * scs.len()) {
             let sc = &scs[k % scs.len()];
             let (inst, threads) = p2::make(sc);
             let out = ctl::run_schedule(threads, p2::PARK, &[], ctl::Policy::Random(&mut rng), 400);
@@ -88,6 +94,102 @@ fn run_p2(thorough: bool, seed: u64, corpus: &[String]) {
             println!("{}", p2::case_json(sc, &out, &obs, "random"));
         }
     }
+}
+
+fn core_scenarios(thorough: bool) -> Vec<coreapp::Scenario> {
+    use coreapp::{Call::*, Ev, Scenario, TaskSpec};
+    let go = |d: u64, tasks: Vec<TaskSpec>| Event(Ev::Go { d, tasks });
+    let emit = |task: u64, n: u64| TaskSpec { task, n, req: false, many: false };
+    let once = |task: u64, n: u64| TaskSpec { task, n, req: true, many: false };
+    let many = |task: u64| TaskSpec { task, n: 0, req: true, many: true };
+    let sc = |name: &str, setup: Vec<coreapp::Call>, threads: Vec<Vec<coreapp::Call>>| Scenario { name: name.to_string(), setup, threads };
+    let mut v = vec![
+        sc("start_vs_noop", vec![], vec![vec![go(1, vec![emit(1, 2)])], vec![go(2, vec![])]]),
+        sc("start_vs_start", vec![], vec![vec![go(1, vec![emit(1, 2)])], vec![go(2, vec![emit(2, 2)])]]),
+        sc("start_vs_view", vec![], vec![vec![go(1, vec![emit(1, 2)])], vec![View, View]]),
+        sc("resolve_vs_noop", vec![go(1, vec![once(1, 2)])], vec![vec![Resolve { task: 1, v: 5 }], vec![go(2, vec![])]]),
+        sc("resolve_vs_resolve_same_command", vec![go(1, vec![once(1, 1), once(2, 1)])], vec![vec![Resolve { task: 1, v: 5 }], vec![Resolve { task: 2, v: 6 }]]),
+        sc("stream_vs_request", vec![go(1, vec![many(1)])], vec![vec![Resolve { task: 1, v: 5 }, Resolve { task: 1, v: 6 }], vec![go(2, vec![once(2, 1)])]]),
+        sc("drop_vs_resolve", vec![go(1, vec![once(1, 1), many(2)])], vec![vec![DropReq { task: 1 }, go(3, vec![])], vec![Resolve { task: 2, v: 6 }]]),
+    ];
+    if thorough {
+        v.push(sc("three_callers", vec![go(1, vec![once(1, 1), many(2)])], vec![vec![Resolve { task: 1, v: 5 }], vec![Resolve { task: 2, v: 6 }], vec![go(2, vec![emit(3, 2)]), View]]));
+        v.push(sc("three_starts", vec![], vec![vec![go(1, vec![emit(1, 2)])], vec![go(2, vec![emit(2, 1)])], vec![go(3, vec![])]]));
+        v.push(sc("two_streams_one_command", vec![go(1, vec![many(1), many(2)])], vec![vec![Resolve { task: 1, v: 5 }, Resolve { task: 1, v: 6 }], vec![Resolve { task: 2, v: 7 }, go(2, vec![])]]));
+    }
+    v
+}
+
+fn park_of(proto: &str) -> &'static [&'static str] {
+    match proto {
+        "P1" => coreapp::PARK_P1,
+        "P1F" => coreapp::PARK_P1_FULL,
+        _ => coreapp::PARK_P3,
+    }
+}
+
+fn run_core(proto: &str, thorough: bool, seed: u64, corpus: &[String], only: Option<&str>) {
+    let lower = proto.to_lowercase();
+    let lower = lower.trim_end_matches('f').to_string();
+    let all = core_scenarios(true);
+    if only.is_none() || only == Some("corpus") {
+        for line in corpus {
+            let parts: Vec<&str> = line.split_whitespace().collect();
+            if parts.len() != 3 || parts[0] != lower {
+                continue;
+            }
+            let Some(sc) = all.iter().find(|s| s.name == parts[1]) else { continue };
+            let dirs = parse_dirs(parts[2]);
+            let (inst, threads) = coreapp::make(sc);
+            let out = ctl::run_schedule(threads, park_of(proto), &[], ctl::Policy::Directed(&dirs), 600);
+            let obs = coreapp::finish(&inst);
+            println!("{}", coreapp::case_json(proto, sc, &inst.setup_trace, &out, &obs, "corpus"));
+        }
+    }
+    if only == Some("corpus") {
+        return;
+    }
+    let max_runs = if thorough { 20000 } else { 1200 };
+    for sc in core_scenarios(thorough) {
+        if only.is_some() && only != Some(sc.name.as_str()) {
+            continue;
+        }
+        let mut infeasible = 0usize;
+        let (runs, exhausted) = ctl::explore_all(
+            || coreapp::make(&sc),
+            park_of(proto),
+            max_runs,
+            600,
+            if thorough { 3 } else { 2 },
+            |inst, out| {
+                let obs = coreapp::finish(&inst);
+                if !out.feasible {
+                    infeasible += 1;
+                }
+                println!("{}", coreapp::case_json(proto, &sc, &inst.setup_trace, &out, &obs, "enum"));
+            },
+        );
+        println!("# {} scenario={} runs={} exhaustive={} preemption_bound={} infeasible={}", proto.to_lowercase(), sc.name, runs, exhausted, if thorough { 3 } else { 2 }, infeasible);
+        if thorough {
+            let mut rng = Rng::new(seed ^ 0x51);
+            for _ in 0..300 {
+                let (inst, threads) = coreapp::make(&sc);
+                let out = ctl::run_schedule(threads, park_of(proto), &[], ctl::Policy::Random(&mut rng), 600);
+                let obs = coreapp::finish(&inst);
+                println!("{}", coreapp::case_json(proto, &sc, &inst.setup_trace, &out, &obs, "random"));
+            }
+        }
+    }
+}
+
+fn parse_dirs(s: &str) -> Vec<(usize, Vec<&'static str>)> {
+    s.split(',')
+        .map(|d| {
+            let (t, names) = d.split_once(':').unwrap();
+            let names: Vec<&'static str> = names.split('|').map(|n| &*Box::leak(n.to_string().into_boxed_str())).collect();
+            (t.parse().unwrap(), names)
+        })
+        .collect()
 }
 
 fn run_replay(path: &str) {
@@ -103,6 +205,13 @@ fn run_replay(path: &str) {
                 let out = ctl::run_schedule(threads, p2::PARK, &sched, ctl::Policy::First, 400);
                 let obs = p2::finish(inst);
                 println!("{}", p2::case_json(sc, &out, &obs, "replay"));
+            }
+        } else if proto == "P1" || proto == "P3" || proto == "P1F" {
+            if let Some(sc) = core_scenarios(true).iter().find(|s| s.name == scen) {
+                let (inst, threads) = coreapp::make(sc);
+                let out = ctl::run_schedule(threads, park_of(proto), &sched, ctl::Policy::First, 600);
+                let obs = coreapp::finish(&inst);
+                println!("{}", coreapp::case_json(proto, sc, &inst.setup_trace, &out, &obs, "replay"));
             }
         }
     }
@@ -124,7 +233,30 @@ fn main() {
         run_replay(args.get(2).map(String::as_str).unwrap_or(""));
         return;
     }
+    let only = args.get(5).map(String::as_str);
+    if proto == "list" {
+        for s in p2_scenarios(thorough) {
+            println!("p2 {}", s.name);
+        }
+        for s in core_scenarios(thorough) {
+            println!("p3 {}", s.name);
+            println!("p1 {}", s.name);
+            if thorough {
+                println!("p1f {}", s.name);
+            }
+        }
+        return;
+    }
     if proto == "p2" || proto == "all" {
-        run_p2(thorough, seed, &corpus);
+        run_p2(thorough, seed, &corpus, only);
+    }
+    if proto == "p3" || proto == "all" {
+        run_core("P3", thorough, seed, &corpus, only);
+    }
+    if proto == "p1" || proto == "all" {
+        run_core("P1", thorough, seed, &corpus, only);
+    }
+    if proto == "p1f" || (proto == "all" && thorough) {
+        run_core("P1F", thorough, seed, &corpus, only);
     }
 }
